@@ -17,7 +17,7 @@ import numpy as np
 from hypothesis import strategies as st
 
 from tqv import gen, ref
-from tqv.core import HarnessError, Inconclusive, SubCheck, Violation, canon, classify_exception
+from tqv.core import HarnessError, Inconclusive, SubCheck, Violation, canon, classify_exception, req
 from tqv.props import _c15_helpers as H
 
 # caller-owned arrays handed to the library must come back unchanged (see tqv/purity.py)
@@ -404,6 +404,12 @@ def _judge_sound(case, obs):
             raise HarnessError(f"PPT builder produced lambda_min(PT) = {lam}")
         if not v:
             raise Violation(f"{what} on a {d[0]}x{d[1]} state with lambda_min(PT) = {lam:.3e} (PPT is decisive here)", f"sep=False[d<=6,ppt]@{site}")
+    elif fam == "hs" and d[0] * d[1] <= 6:
+        # unstructured full-rank state: the verdict must be the PPT criterion (asserted by margin only)
+        if lam <= -1e-3 and v:
+            raise Violation(f"{what} on a random full-rank state with lambda_min(PT) = {lam:.3e}", f"sep=True[{_dom(d)}]@{site}")
+        if lam >= 1e-3 and not v:
+            raise Violation(f"{what} on a random full-rank {d[0]}x{d[1]} state with lambda_min(PT) = {lam:.3e} (PPT is decisive here)", f"sep=False[d<=6,ppt]@{site}")
 
 
 def _label_sound(case, obs):
@@ -420,8 +426,11 @@ def _sound_main_case(draw):
         fam = draw(st.sampled_from(["sep", "sep", "npt"]))
         spec = draw(_sep_spec(d, "shallow")) if fam == "sep" else draw(_npt_spec(d))
     else:
-        fam = draw(st.sampled_from(["sep", "sep", "npt", "ppt"]))
-        spec = draw({"sep": _sep_spec, "npt": _npt_spec, "ppt": _ppt_spec}[fam](d))
+        fam = draw(st.sampled_from(["sep", "sep", "npt", "ppt", "hs", "hs"]))
+        if fam == "hs":
+            spec = {"fam": "hs", "d": list(d), "cplx": draw(st.booleans()), "seed": draw(gen.SEED)}
+        else:
+            spec = draw({"sep": _sep_spec, "npt": _npt_spec, "ppt": _ppt_spec}[fam](d))
     return {"state": spec, "dimform": _dimform(draw, d)}
 
 
@@ -527,7 +536,9 @@ def _ball_case(draw):
         "factor": draw(st.sampled_from(FACTORS)),
         "form": draw(st.sampled_from(["matrix", "matrix", "eigvec"])),
         "cplx": draw(st.booleans()),
-        "scale": draw(st.sampled_from([1.0, 1.0, 0.5, 7.0])),
+        # negative scales: minus a state is not in the ball, whatever its shape (seeded change C15-w1 normalised by the
+        # signed trace and so accepted -I and the negatives of nearly maximally mixed states)
+        "scale": draw(st.sampled_from([1.0, 1.0, 0.5, 7.0, -1.0, -3.0])),
         "sparse_dir": draw(st.booleans()),
         "seed": draw(gen.SEED),
     }
@@ -559,6 +570,9 @@ def check_ball(case):
         q = gen.rand_unitary(int(g.integers(0, 2**62)), n, not case["cplx"])
         arg = case["scale"] * H.herm((q * lam) @ q.conj().T)
     got = bool(in_separable_ball(arg))
+    if case["scale"] < 0:
+        req(not got, f"in_separable_ball accepts a {case['form']} with negative trace ({case['scale']} x a state at distance {dist:.4g} from I/{n})", "ball:accepts-negative-trace")
+        return
     if dist >= radius * (1 + 1e-3) and got:
         raise Violation(f"in_separable_ball accepts a {case['form']} at Frobenius distance {dist:.6g} from I/{n}; the ball radius is {radius:.6g}", "ball:accepts-outside")
     if dist <= radius * (1 - 1e-6) and not got:
